@@ -95,7 +95,7 @@ func replayHTTPBody(m map[string]any) int {
 func replayFaultHistory(m map[string]any) int {
 	wh.InstallLogicalClock()
 	run := scratchRun(m)
-	u := uni.New(ev.Seed(), 9, []int{0})
+	u := uni.New(ev.Seed(), 9, []int{0, 4})
 	gen := wh.NewCPGen(u)
 	la := wh.LogCfg{Origin: logA(), Key: u.K1}
 	lb := wh.LogCfg{Origin: logB(), Key: u.K2}
@@ -105,7 +105,7 @@ func replayFaultHistory(m map[string]any) int {
 		}
 		after, _ := m["after_effect"].(bool)
 		c := choice.Replay(intsOf(m["choices"]), func(c *choice.C) {
-			faultExec(run, run.Property, u, gen, []wh.LogCfg{la, lb}, fmt.Sprint(m["store"]), faultMode{Level: fmt.Sprint(m["level"]), AfterEffect: after}, h, c, run.Property == "C03")
+			faultExec(run, run.Property, u, gen, []wh.LogCfg{la, lb}, fmt.Sprint(m["store"]), faultMode{Level: fmt.Sprint(m["level"]), AfterEffect: after}, h, c)
 		})
 		fmt.Printf("history %s on %s store, %s-level faults: %v\n", h.Name, m["store"], m["level"], c.Trace())
 	}
@@ -133,7 +133,8 @@ func replayDistribute(m map[string]any) int {
 	u := uni.New(ev.Seed(), 12, nil)
 	fmt.Printf("logs %v\nwitness answers %v\ndistributor answers %v\n", m["origins"], m["witness_answers"], m["distributor_answers"])
 	warm, _ := m["after_a_valid_round"].(bool)
-	c15RunOpt(run, u, stringsOf(m["origins"]), stringsOf(m["witness_answers"]), stringsOf(m["distributor_answers"]), warm)
+	sl, _ := m["witness_name_with_slash"].(bool)
+	c15RunOpt(run, u, stringsOf(m["origins"]), stringsOf(m["witness_answers"]), stringsOf(m["distributor_answers"]), warm, sl)
 	return run.Finish()
 }
 
